@@ -18,7 +18,7 @@ const (
 
 var c06Names = []string{"resetsFlags", "metaCompare", "tsPositive", "voidClears", "pushChecksType", "setSliceReplaces",
 	"u32delReleases", "u32delChecksType", "incFailClean", "noEmptyLive", "arekAllFalse", "countMissingOk",
-	"setErrSingle", "fltCondDirect", "keyChecked", "recreateKeepsPointer", "saveReleasesImmediate", "wireExpNe0"}
+	"setErrSingle", "fltCondDirect", "keyChecked", "recreateKeepsPointer", "patchAsksFirst", "fltSetBitwise", "saveReleasesImmediate", "wireExpNe0"}
 
 func init() {
 	Register("C06", Extractor{Import: "Hv.Props.C06", Type: "Hv.C06.Facts", Run: func(fs *Facts) {
@@ -746,6 +746,86 @@ func c06All(gw, sw, tr *File) map[string]c06Fact {
 			})
 		}
 		out["recreateKeepsPointer"] = fact
+	}
+
+	// ---- patchAsksFirst: patchTreasuresOneSwamp asks IsExistSwamp before SummonSwamp when it may not create -----
+	// yes: `if !in.GetCreateIfNotExist() { if isExist, existErr := hydraInterface.IsExistSwamp(...); existErr != nil || !isExist { …return… } }`
+	//      placed before the SummonSwamp call;  no: no IsExistSwamp call in the function
+	{
+		fact := unk(gw)
+		if gp, err := Load("app/server/gateway/gateway_patch.go"); err == nil {
+			fact = unk(gp)
+			if fd := gp.Func("", "patchTreasuresOneSwamp"); fd != nil {
+				summon := token.Pos(0)
+				for _, c := range gp.CallsSuffix(fd.Body, "SummonSwamp") {
+					if summon == 0 || c.Pos() < summon {
+						summon = c.Pos()
+					}
+				}
+				asks := gp.CallsSuffix(fd.Body, "IsExistSwamp")
+				switch {
+				case summon != 0 && len(asks) == 0:
+					fact = c06Fact{No, c06At(gp, fd)}
+				case summon != 0 && len(asks) == 1 && asks[0].Pos() < summon:
+					if outer := c06InsideIf(fd.Body, asks[0]); outer != nil {
+						ok := false
+						ast.Inspect(fd.Body, func(n ast.Node) bool {
+							is, isIf := n.(*ast.IfStmt)
+							if isIf && gp.Str(is.Cond) == "!in.GetCreateIfNotExist()" && is.Pos() <= asks[0].Pos() && asks[0].End() <= is.End() &&
+								gp.Contains(is.Body, "!isExist") && gp.Contains(is.Body, "return ") {
+								ok = true
+							}
+							return true
+						})
+						if ok {
+							fact = c06Fact{Yes, c06At(gp, asks[0])}
+						}
+					}
+				}
+			}
+		}
+		out["patchAsksFirst"] = fact
+	}
+
+	// ---- fltSetBitwise: SetContentFloat32/64 decide "not changed" on the bits (yes) or with == (no) ------------
+	{
+		fact := unk(tr)
+		yes, no, other := 0, 0, 0
+		for _, w := range []string{"32", "64"} {
+			fd := tr.Func("treasure", "SetContentFloat"+w)
+			if fd == nil {
+				other++
+				continue
+			}
+			found := false
+			ast.Inspect(fd.Body, func(n ast.Node) bool {
+				is, ok := n.(*ast.IfStmt)
+				if !ok || !tr.Contains(is.Body, "return") || !strings.Contains(tr.Str(is.Cond), "Content.Float"+w) {
+					return true
+				}
+				found = true
+				c := tr.Str(is.Cond)
+				switch {
+				case strings.HasSuffix(c, "*t.treasure.Content.Float"+w+" == content"):
+					no++
+				case strings.HasSuffix(c, "math.Float"+w+"bits(*t.treasure.Content.Float"+w+") == math.Float"+w+"bits(content)"):
+					yes++
+				default:
+					other++
+				}
+				return true
+			})
+			if !found {
+				other++
+			}
+		}
+		switch {
+		case other == 0 && yes == 2:
+			fact = c06Fact{Yes, tr.Path}
+		case other == 0 && no == 2:
+			fact = c06Fact{No, tr.Path}
+		}
+		out["fltSetBitwise"] = fact
 	}
 
 	// ---- wireExpNe0: treasureToKeyValuePair shows ExpiredAt when `!= 0` (yes) / `> 0` (no) ---------------
